@@ -97,6 +97,8 @@ type Runtime struct {
 	// per goroutine-less call state: the command loop is sequential; the concurrent mode keys states by a request header
 	states map[string]*callState
 	routes [][2]string
+	// UnionTypes are the alternative types of the OneOf unions of the generated service packages (registered by the glue)
+	UnionTypes []reflect.Type
 	// extension points of the gRPC part (grpc.go, build tag grpcglue)
 	grpc     any
 	starters []func()
